@@ -78,6 +78,7 @@ func (s *metricSchemaStore) GetSchema(id metric.ID) (schema *metric.Schema, err 
 		return nil, err
 	}
 	if schema != nil {
+		verifhook.Yield("index.schemastore.get.beforeCache")
 		s.cache.Add(id, schema)
 	}
 	return
@@ -247,6 +248,7 @@ func (s *metricSchemaStore) Flush() error {
 	if err != nil {
 		return err
 	}
+	verifhook.Yield("index.schemastore.flush.beforeMark")
 
 	s.lock.Lock()
 	// mark schema persisted
